@@ -78,6 +78,12 @@ impl Source for FileSource {
         if crate::verif::fault("file_read") {
             return Err(std::io::Error::from_raw_os_error(5));
         }
+        // a read(2) may return fewer bytes than asked for, for any reason
+        #[cfg(jubako_verif)]
+        let buf = {
+            let n = crate::verif::short_read(buf.len());
+            &mut buf[..n]
+        };
         f.read(buf)
     }
 
